@@ -208,9 +208,29 @@ structure Env where
 
 inductive Event where
   | importAttempt (modname : Val)
-  | new (c : ClsRef)                        -- `cls.__new__(cls)`
-  | init (c : ClsRef)                       -- a constructor call `cls(...)`: never produced, see `no_init`
+  | new (c : ClsRef)                        -- `cls.__new__(cls)`: no argument, `__init__` does not run
+  | init (c : ClsRef)                       -- a constructor call `cls(...)`
   deriving Repr
+
+/-- how `load` makes the instance — observed by the generator on a probe class with `__new__` / `__init__` canaries
+(`Gen.Vinegar.instantiatesByNew`): `cls.__new__(cls)`, or a constructor call -/
+def instantiationEvent (c : ClsRef) : Event :=
+  if Gen.Vinegar.instantiatesByNew then .new c else .init c
+
+/-- everything `vinegar.load` and the module functions it uses may call (compared with the generated, normalised call list
+of the source: `Gen.Vinegar.loadCalls`).  Each entry is a step of this model or a pure helper of the language:
+`__import__` = `importEvents`; `getattr`/`isinstance`/`issubclass` = `lookupClass`/`resolveClass`; `type`/`ClassType`/`str` =
+`genericClass`; `.__new__`/`InstanceType` = `instantiationEvent`; `setattr`/`getattr` = `assignAttr`/`remoteVersion`;
+`.split`/`.format` = `versionCheck`; `.__str__`/`.count`/`hasattr` = `derivedStr`.  A call of a local name or of an
+expression (`cls(...)`) is in no list. -/
+def loadCallsAllowed : List String :=
+  ["ClassType", "InstanceType", "__import__", "getattr", "hasattr", "isinstance", "issubclass", "setattr", "str", "type",
+   "tuple", "list", "dict", "len", "bool", "repr", "format", "iter", "next", "zip", "enumerate", "any", "all", "frozenset",
+   ".__new__", ".__str__", ".split", ".partition", ".format", ".count", ".get", ".join", ".startswith", ".items",
+   ".setdefault", ".append"]
+
+/-- what the functions that build the `Derived` subclass may call -/
+def derivedCallsAllowed : List String := [".__str__", ".count", ".format", ".join", "hasattr", "str", "repr", "len"]
 
 /-- the object `load` returns: instance attributes most recent first -/
 structure ExcObj where
@@ -397,10 +417,10 @@ def build (env : Env) (cls : ClsRef) (args attrs tb : Val) : Except Err ExcObj :
 
 /-- `exc = cls.__new__(cls)` and everything after it -/
 def instantiate (env : Env) (evs : List Event) (cls : ClsRef) (newNeedsArgs : Bool) (args attrs tb : Val) : LoadResult :=
-  if newNeedsArgs then ⟨evs ++ [.new cls], .error .typeError⟩
+  if newNeedsArgs then ⟨evs ++ [instantiationEvent cls], .error .typeError⟩
   else match build env cls args attrs tb with
-    | .error e => ⟨evs ++ [.new cls], .error e⟩
-    | .ok o => ⟨evs ++ [.new cls], .ok (.exc o)⟩
+    | .error e => ⟨evs ++ [instantiationEvent cls], .error e⟩
+    | .ok o => ⟨evs ++ [instantiationEvent cls], .ok (.exc o)⟩
 
 /-- `load` after `(modname, clsname), args, attrs, tbtext = val` -/
 def loadRecord (r : RecvCfg) (env : Env) (m c args attrs tb : Val) : LoadResult :=
@@ -409,8 +429,8 @@ def loadRecord (r : RecvCfg) (env : Env) (m c args attrs tb : Val) : LoadResult 
     | .error e => ⟨importEvents r env m, .error e⟩
     | .ok (cls, nn) => instantiate env (importEvents r env m) cls nn args attrs tb
 
-/-- `vinegar.load(val, import_custom_exceptions, instantiate_custom_exceptions, instantiate_oldstyle_exceptions)` -/
-def loadExc (r : RecvCfg) (env : Env) (payload : Val) : LoadResult :=
+/-- `vinegar.load` with the old-style switch left aside -/
+def loadCore (r : RecvCfg) (env : Env) (payload : Val) : LoadResult :=
   if isStopMarker payload then ⟨[], .ok .stopIterationClass⟩
   else match payload with
     | .str s => ⟨[], .ok (.strExc s)⟩
@@ -419,6 +439,53 @@ def loadExc (r : RecvCfg) (env : Env) (payload : Val) : LoadResult :=
       | .ok (hd, args, attrs, tb) => match unpack2 hd with
         | .error e => ⟨[], .error e⟩
         | .ok (m, c) => loadRecord r env m c args attrs tb
+
+/-- `vinegar.load(val, import_custom_exceptions, instantiate_custom_exceptions, instantiate_oldstyle_exceptions)`.
+The third switch only matters where `ClassType is not type` (Python 2); the generator measures that it changes no outcome
+(`Gen.Vinegar.oldstyleSwitchInert`); were that to change, the model declines to answer for the switch set -/
+def loadExc (r : RecvCfg) (env : Env) (payload : Val) : LoadResult :=
+  if Gen.Vinegar.oldstyleSwitchInert || !r.instOldstyle then loadCore r env payload
+  else ⟨[], .error .notModelled⟩
+
+/-! ### the class of the received object: `_get_exception_class` -/
+
+/-- `type(exc)` as `load` leaves it: a cached subclass `Derived(cls)` of the class found (or of the generic stand-in), which
+copies `cls.__name__` and `cls.__module__` and overrides `__str__` / `__repr__` -/
+structure ObjType where
+  base : ClsRef            -- `type(exc).__mro__[1]`: the object is an instance of it, `except base:` catches it
+  namedAfter : ClsRef      -- whose `__name__` and `__module__` the subclass carries
+  deriving Repr
+
+def getExceptionClass (c : ClsRef) : ObjType := ⟨c, c⟩
+
+def ExcObj.type (o : ExcObj) : ObjType := getExceptionClass o.cls
+
+/-- `s.count(sub)`: non-overlapping occurrences, left to right -/
+def countSubAux (sub : Str) : Nat → Str → Nat
+  | 0, _ => 0
+  | _, [] => 0
+  | fuel+1, c :: cs =>
+    if sub.isPrefixOf (c :: cs) then 1 + countSubAux sub fuel ((c :: cs).drop sub.length)
+    else countSubAux sub fuel cs
+def countSub (sub s : Str) : Nat := if sub.isEmpty then s.length + 1 else countSubAux sub s.length s
+
+/-- `Derived.__str__` (and `__repr__`): the class's own `__str__` — or "<Unprintable exception>" when that raises —, then,
+if the object has `_remote_tb`, `REMOTE_LINE_START (n) REMOTE_LINE_END` with n = 1 + the markers already in the text, and the
+remote traceback text.  `base` = what `cls.__str__(self)` gives (environment). -/
+def derivedStr (base : Except Err Str) (remoteTb : Option Val) : Except Err Str :=
+  match remoteTb with
+  | none => .ok (match base with | .ok t => t | .error _ => Gen.Vinegar.unprintable)
+  | some (.str t) =>
+    .ok ((match base with | .ok b => b | .error _ => Gen.Vinegar.unprintable)
+          ++ Gen.Vinegar.remoteLineStart ++ [40] ++ natDigits (countSub Gen.Vinegar.remoteLineStart t + 1) ++ [41]
+          ++ Gen.Vinegar.remoteLineEnd ++ t)
+  | some (.tuple _) => .error .typeError       -- `tuple.count` works, `text += tuple` does not
+  | some (.bytes _) => .error .typeError       -- `bytes.count(str)`
+  | some (.other _) => .error .notModelled
+  | some _ => .error .attributeError           -- no `.count`
+
+def ExcObj.str (o : ExcObj) (base : Except Err Str) : Except Err Str :=
+  derivedStr base (o.get Gen.Vinegar.remoteTbAttr)
 
 /-! ### what the requester sees: `AsyncResult.value` does `raise self._obj` -/
 
